@@ -291,9 +291,10 @@ def ref(spec, stack=('x', 'y'), scheme='s'):
 def build(spec, stack=('x', 'y'), scheme='s', eps='_'):
     from gambatools.pda import PDA
     Q, Sg, Gm, T, q0, F = parts(spec, stack, scheme)
+    from mc.spaces import fresh      # equal but distinct str objects, as a parser produces them
     delta = collections.defaultdict(set)
     for (p, a, u, q, v) in ordered_transitions(T, Q):
-        delta[p, a or eps, u or eps].add((q, v or eps))
+        delta[fresh(p), fresh(a) or eps, fresh(u) or eps].add((fresh(q), fresh(v) or eps))
     return PDA(set(Q), set(Sg), set(Gm), delta, q0, set(F), eps)
 
 
@@ -337,3 +338,92 @@ def morph(spec, stack=('x', 'y'), scheme='s', eps='_'):
     P.F.clear(); P.F.update(F)
     P.epsilon = eps
     return P
+
+
+# ---------------------------------------------------------------- thin families (wave 5)
+def cyc_family(maxlen=5, front=False):
+    """Coprime push / pop cycles, all moves epsilon: s -e,e->y p0 (bottom marker); p_i pushes x and goes round a cycle of
+    a states, the cycle is left only from p_(a-1); r_j pops x round a cycle of b states; the marker is popped only in
+    r_(b-1), entering f.  The empty word is accepted iff some m is a-1 mod a and b-1 mod b, and every accepting run
+    climbs to m + 1 stack symbols - far above |Q| + the stack height at both ends of the epsilon path (a=3, b=4: 12)."""
+    idx = 0
+    for a in range(1, maxlen + 1):
+        for b in range(1, maxlen + 1):
+            n = a + b + 2
+            k, g = 1, 2
+            E, X = k, g
+            s, f = 0, n - 1
+            P = list(range(1, a + 1))
+            Rr = list(range(a + 1, a + b + 1))
+            tr = [(s, (0 if front else E), X, P[0], 1)]
+            tr += [(P[i], E, X, P[(i + 1) % a], 0) for i in range(a)]
+            tr += [(P[a - 1], E, X, Rr[0], X)]
+            tr += [(Rr[j], E, 0, Rr[(j + 1) % b], X) for j in range(b)]
+            tr += [(Rr[b - 1], E, 1, f, X)]
+            yield idx, ('pda', n, k, g, tuple(sorted(set(tr))), 0, 1 << f)
+            idx += 1
+
+
+def fan_instance(d=8):
+    """s -e-> s1, s -e-> s2 (no-ops); s1 -a-> u0 and s2 -a-> v0; u_i / v_i push x or y by epsilon moves (d times);
+    u_d -e-> w (no-op); in w the letters a / b pop x / y; F = {w}; the v branch is dead.  After the first letter the
+    closure computed from the configuration s1 alone has 2^(d+1) - 1 + 2^d configurations, from s2 alone 2^(d+1) - 1, and
+    the closure of the SET of all current configurations has both (d = 8: 767, 511 and 1278 - on both sides of the default
+    limit of 1000): an enumerator working configuration by configuration and an acceptance test working on the set only
+    agree when the configured limit is honoured."""
+    n = 2 * d + 6
+    k, g = 2, 2
+    E, X = k, g
+    U = list(range(1, d + 2))
+    V = list(range(d + 2, 2 * d + 3))
+    w, s1, s2 = 2 * d + 3, 2 * d + 4, 2 * d + 5
+    tr = [(0, E, X, s1, X), (0, E, X, s2, X), (s1, 0, X, U[0], X), (s2, 0, X, V[0], X)]
+    for B in (U, V):
+        for i in range(d):
+            tr += [(B[i], E, X, B[i + 1], 0), (B[i], E, X, B[i + 1], 1)]
+    tr += [(U[d], E, X, w, X), (w, 0, 0, w, X), (w, 1, 1, w, X)]
+    return ('pda', n, k, g, tuple(sorted(tr)), 0, 1 << w)
+
+
+def of_dfa(n, k, d, q0, fb):
+    """A DFA written as a PDA: every move reads a letter and leaves the stack alone (neither push nor pop)."""
+    X = 1
+    tr = []
+    i = 0
+    for p in range(n):
+        for a in range(k):
+            tr.append((p, a, X, d[i], X))
+            i += 1
+    return ('pda', n, k, 1, tuple(tr), q0, fb)
+
+
+def noop_family():
+    """Counters modulo (p, q) over two letters written as PDAs with p*q*2 moves that neither push nor pop: conversions
+    to push/pop format need one fresh intermediate state per move (12 and more: past a decimal carry in M9 / M10)."""
+    idx = 0
+    for (p, q) in ((3, 2), (2, 3), (7, 1), (4, 2)):
+        n = p * q
+        d = []
+        for i in range(p):
+            for j in range(q):
+                d += [((i + 1) % p) * q + j, i * q + (j + 1) % q]
+        for f in range(n):
+            yield idx, of_dfa(n, 2, d, 0, 1 << f)
+            idx += 1
+
+
+def multichar_pushpop_family():
+    """Five states, three letters, stack symbols meant to be named A, B, AB and a bottom marker: s0 pushes the marker,
+    in s1 the letters a / b push A / B and c c (through s4) pushes AB, an epsilon no-op move leads to s2, where the
+    letters pop A / B / AB; the marker is popped into the accepting state s3.  The stacks [A, B] and [AB] are reached by
+    different words of the same length (ab and cc) and must stay apart; the full automaton and every automaton with one
+    of the letter moves dropped."""
+    k, g = 3, 4
+    E, X = k, g
+    fixed = [(0, E, X, 1, 3), (1, E, X, 2, X), (2, E, 3, 3, X), (1, 2, X, 4, X)]
+    moves = [(1, 0, X, 1, 0), (1, 1, X, 1, 1), (4, 2, X, 1, 2), (2, 0, 0, 2, X), (2, 1, 1, 2, X), (2, 2, 2, 2, X)]
+    idx = 0
+    for drop in [None] + list(range(len(moves))):
+        tr = tuple(sorted(fixed + [t for i, t in enumerate(moves) if i != drop]))
+        yield idx, ('pda', 5, k, g, tr, 0, 8)
+        idx += 1
